@@ -77,7 +77,7 @@ def cases(tier, seed, shard, nshards):
                 s = s + [{"line": r.randint(0, 50)}]
             specs.append(s)
         order = r.choice(ORDERS) if r.random() < .8 else None
-        yield {"lib": specs, "order": order, "pc": r.random() < .5}
+        yield {"lib": specs, "order": order, "pc": r.random() < .5, "reuse": r.randint(0, 50) if r.random() < .3 else None}
 
 
 _INSTANCES = {}
@@ -106,6 +106,15 @@ def check(case, ctx):
     from bibtexparser import model as M
     specs, order, pc = case["lib"], case["order"], case["pc"]
     lib = build.library(specs)
+    if case.get("reuse") is not None and len(lib.blocks) >= 2:
+        # the same separator-comment OBJECT re-used at a second position (object identity, not just equal content)
+        from bibtexparser.library import Library
+        bl = list(lib.blocks)
+        com = [b for b in bl if is_comment(b)]
+        if com:
+            c = com[case["reuse"] % len(com)]
+            bl.insert(case["reuse"] % (len(bl) + 1), c)
+            lib = Library(bl)
     B = list(lib.blocks)
     names = order if order is not None else ["String", "Preamble", "Entry", "ImplicitComment", "ExplicitComment"]
     classes = [getattr(M, n) for n in names]
